@@ -222,7 +222,7 @@ pub fn assemble(sched_seed: u64, seg: SegPattern, max_write: Option<usize>, gen:
     let mut replies = Vec::new();
     let mut k = 0usize;
     let steps = gen.into_iter().map(|g| conv(g, &mut k, &mut replies)).collect();
-    Script { sched_seed, seg, replies, steps, max_write, picture: None, broken_pipe: true, greeting: None, lazy_events: false, version: None, vectored: false }
+    Script { sched_seed, seg, replies, steps, max_write, picture: None, broken_pipe: true, greeting: None, lazy_events: false, version: None, vectored: false, events_polled_last: false }
 }
 
 /// Properties of the peer and the transport that no property statement restricts: the version the
@@ -329,7 +329,19 @@ pub fn fault() -> impl Strategy<Value = Fault> {
 
 /// C08: a request/notification history with exactly one fault (or the last handle dropped).
 pub fn faulty_script() -> impl Strategy<Value = Script> {
-    in_environment(faulty_script_plain())
+    in_environment(prop_oneof![
+        9 => faulty_script_plain(),
+        // an application that holds its events handle without looking at it while notifications pile up
+        1 => (faulty_script_plain(), prop_oneof![Just(5usize), Just(1023), Just(1024), Just(1025), Just(1100), Just(2100)]).prop_map(|(mut s, n)| {
+            let c = |d: usize| (b'a' + (d % 26) as u8) as char;
+            s.steps.insert(0, Step::Change((0..n).map(|i| format!("n{}{}{}", c(i / 676), c(i / 26), c(i))).collect()));
+            s.steps.insert(1, Step::Advance(1));
+            s.steps.retain(|x| !matches!(x, Step::DropEvents));
+            s.lazy_events = true;
+            s.events_polled_last = true;
+            s
+        }),
+    ])
 }
 
 fn faulty_script_plain() -> impl Strategy<Value = Script> {
